@@ -103,7 +103,11 @@ L_EFrame(z, r, ln) ==
                                         /\ (want = "rejected" => k = "rejected" /\ IsTxnErr(r.f.state.cond)), ln, want \o "-got-" \o k)
             + Chk("C18_FreshId", k # "declared" \/ Get(r.f.state, "fresh", FALSE), ln, "reused")
             + (IF k = "declared" THEN Stat("declared") ELSE IF want = "rejected" /\ k = "rejected" THEN Stat("discharge-refused") ELSE 0))
-  ELSE IF r.perf \in {"end", "detach", "close"} /\ IsTxnErr(r.f.err) THEN R([z EXCEPT !.refOwed = 0, !.dead = (@ \/ r.perf # "detach")], Stat("post-refused"))
+  \* a transaction error from the endpoint answers a post it had to refuse; with nothing to refuse it is itself a violation
+  \* (posts under live transactions must be taken)
+  ELSE IF r.perf \in {"end", "detach", "close"} /\ IsTxnErr(r.f.err) THEN
+       R([z EXCEPT !.refOwed = 0, !.dead = (@ \/ r.perf # "detach")],
+         Chk("C18_SpuriousRefusal", z.refOwed > 0 \/ z.late # {} \/ z.dead, ln, r.perf) + Stat("post-refused"))
   ELSE IF r.perf \in {"end", "close"} THEN R([z EXCEPT !.dead = TRUE], 0)
   ELSE R(z, 0)
 
